@@ -265,7 +265,15 @@ func c14Cache(e *c14env) {
 	inFam := map[*ast.BlockStmt]bool{}
 	for _, g := range reach(f, 2) {
 		gd, _ := g.Node.(*ast.FuncDecl)
-		if g == f || (gd != nil && e.recvNamed(gd) == e.roles.lvlT) {
+		onPath := g == f || (gd != nil && e.recvNamed(gd) == e.roles.lvlT)
+		if !onPath && gd != nil && e.funcObj(gd) != e.roles.split.obj {
+			// a wrapper between the lookup and the splitter (parseTopic: bool verdict -> error)
+			onPath = reachContains(g, 1, func(h *flow.Func, n ast.Node) bool {
+				call, ok := n.(*ast.CallExpr)
+				return ok && c14calleeOf(h, call) == e.roles.split.obj
+			})
+		}
+		if onPath {
 			fam = append(fam, g)
 			inFam[g.Body] = true
 		}
@@ -308,6 +316,30 @@ func c14Cache(e *c14env) {
 	if levels == nil || valid == nil || validID == nil || validID.Name == "_" {
 		c.Violate("R-C14-2", cons+"|cache filled only with valid splits", pos(c, split), "splitTopic's validity verdict is discarded: malformed filters ('a/#/b', 'a+') are accepted")
 		return
+	}
+	// variables holding the split: bound to the splitter's result, or to the first result of a
+	// family function that hands it on
+	levelsVars := map[types.Object]bool{levels: true}
+	for _, g := range fam {
+		g := g
+		ast.Inspect(g.Body, func(n ast.Node) bool {
+			as, ok := n.(*ast.AssignStmt)
+			if !ok || len(as.Rhs) != 1 {
+				return true
+			}
+			call, ok := ast.Unparen(as.Rhs[0]).(*ast.CallExpr)
+			if !ok {
+				return true
+			}
+			if fo := c14calleeOf(g, call); fo != nil {
+				if hd := declOf(e.pkg, fo); hd != nil && inFam[hd.Body] && len(call.Args) == 1 && isTopic(g, call.Args[0]) {
+					if o := c14obj(g, as.Lhs[0]); o != nil {
+						levelsVars[o] = true
+					}
+				}
+			}
+			return true
+		})
 	}
 	splitOfTopic := len(split.Args) == 1 && isTopic(gs, split.Args[0])
 	validKey := gs.VarKey(validID)
@@ -356,7 +388,7 @@ func c14Cache(e *c14env) {
 			c.Violate("R-C14-2", cons+"|cache filled only with valid splits", pos(c, add), why+": a later lookup of another topic returns these levels")
 			return
 		}
-		if c14obj(f, add.Args[1]) != levels {
+		if !levelsVars[c14obj(f, add.Args[1])] {
 			c.Violate("R-C14-2", cons+"|cache filled only with valid splits", pos(c, add), "the cached value is not the slice produced by splitTopic for this key")
 			return
 		}
@@ -407,7 +439,7 @@ func c14Cache(e *c14env) {
 			}
 			fromHit = c14obj(f, x) == hitVal
 		}
-		fromSplit := c14obj(f, r0) == levels && st.Is(validKey, flow.True)
+		fromSplit := levelsVars[c14obj(f, r0)] && st.Is(validKey, flow.True)
 		if !fromHit && !fromSplit {
 			badExit, whyExit = ex, "levels are returned with a nil error although they are neither a cache hit nor a split that splitTopic declared valid: a malformed filter passes the gate"
 		}
@@ -622,4 +654,119 @@ func c14Prune(e *c14env) {
 		}
 	})
 	c.RequireCount("R-C14-3", "prune sites delete(parent.nodes, level)", sites, 1)
+}
+
+// c14RemoveWalk (R-C14-3): remove deletes the client only from the node reached by the whole
+// filter. When the walk finds a level missing (comma-ok lookup false / nil child) and does not
+// create it, the client delete must not be reached: a walk that merely stops early would make remove
+// delete the client from the node of the longest existing prefix — another filter's subscription —
+// and prune from there. Decided over remove and its helpers (walk/descend interpreted in place).
+func c14RemoveWalk(e *c14env) {
+	c := e.c
+	rm := e.role("remove")
+	f := rm.f
+	const evMissing = "ev:c14:levelMissing"
+	type lookup struct {
+		g       *flow.Func
+		val, ok *ast.Ident
+	}
+	var lookups []lookup
+	dels := map[*ast.CallExpr]bool{}
+	creates := map[ast.Node]bool{}
+	for _, g := range reach(f, 3) {
+		g := g
+		ast.Inspect(g.Body, func(n ast.Node) bool {
+			switch t := n.(type) {
+			case *ast.AssignStmt:
+				if len(t.Rhs) == 1 {
+					if ix, ok := ast.Unparen(t.Rhs[0]).(*ast.IndexExpr); ok {
+						if _, isNodes := c14fieldRecv(g, ix.X, e.nodesF); isNodes {
+							l := lookup{g: g}
+							l.val, _ = t.Lhs[0].(*ast.Ident)
+							if len(t.Lhs) == 2 {
+								l.ok, _ = t.Lhs[1].(*ast.Ident)
+							}
+							lookups = append(lookups, l)
+						}
+					}
+				}
+				for _, lh := range t.Lhs {
+					if ix, ok := ast.Unparen(lh).(*ast.IndexExpr); ok {
+						if _, isNodes := c14fieldRecv(g, ix.X, e.nodesF); isNodes {
+							creates[t] = true
+						}
+					}
+				}
+			case *ast.CallExpr:
+				if c14isBuiltin(g, t, "delete") && len(t.Args) == 2 {
+					if _, isClients := c14fieldRecv(g, t.Args[0], e.clientsF); isClients {
+						dels[t] = true
+					}
+				}
+			}
+			return true
+		})
+	}
+	if len(dels) == 0 || len(lookups) == 0 {
+		c.Undecide("R-C14-3", rm.cons+"|client removed only from the node of the whole filter", pos(c, f.Body), "cannot find the child lookups of the walk or the delete from a clients map in remove and its helpers")
+		return
+	}
+	mentions := func(cond ast.Expr, id *ast.Ident, g *flow.Func) bool {
+		if id == nil || id.Name == "_" {
+			return false
+		}
+		o := c14obj(g, id)
+		hit := false
+		ast.Inspect(cond, func(n ast.Node) bool {
+			if x, ok := n.(*ast.Ident); ok && g.Info.Uses[x] == o {
+				hit = true
+			}
+			return !hit
+		})
+		return hit
+	}
+	except := []types.Object{e.roles.split.obj}
+	for fo := range e.roles.sources {
+		except = append(except, fo)
+	}
+	var bad *flow.State
+	var badAt ast.Node
+	n := 0
+	res := analyze(c, f, flow.Config{
+		NoHavoc: true,
+		Inline:  inlineSamePkg(f, except...),
+		AfterAssume: func(st *flow.State, cond ast.Expr, outcome bool) {
+			for _, l := range lookups {
+				if l.ok != nil && mentions(cond, l.ok, l.g) && st.Is(l.g.VarKey(l.ok), flow.False) {
+					st.Set(evMissing, flow.True)
+				}
+				if l.val != nil && mentions(cond, l.val, l.g) && st.Is(l.g.NilKey(l.val), flow.True) {
+					st.Set(evMissing, flow.True)
+				}
+			}
+		},
+		OnNode: func(st *flow.State, nd ast.Node) {
+			if creates[nd] {
+				st.Set(evMissing, flow.Unknown) // the missing level is created
+			}
+		},
+		OnCall: func(st *flow.State, call *ast.CallExpr, callee types.Object, d bool) {
+			if dels[call] {
+				n++
+				if st.Is(evMissing, flow.True) && bad == nil {
+					bad, badAt = st.Clone(), call
+				}
+			}
+		},
+	})
+	if res == nil {
+		return
+	}
+	if n == 0 {
+		c.Undecide("R-C14-3", rm.cons+"|client removed only from the node of the whole filter", pos(c, f.Body), "the delete from the clients map is not reached in the analysis of remove (helper not interpreted in place)")
+		return
+	}
+	c.Check(bad == nil, "R-C14-3", rm.cons+"|client removed only from the node of the whole filter", pos(c, f.Body),
+		sprintf("%d abstract states reach the delete from a clients map, none after the walk found a level of the filter missing", n),
+		sprintf("the client is deleted (at %s) although the walk found a level of the filter missing and stopped there: remove no longer stops when the walk ends early, it deletes the client from the node of the longest existing prefix — the subscription of another, shorter filter — and prunes from there", pos(c, badAt)), witness(bad)...)
 }
